@@ -290,19 +290,16 @@ def check_files(case):
         for (i, j), ws in fwd.items():
             back = sorted(fwd.get((j, i), []), reverse=True)
             ws = sorted(ws, reverse=True)
-            n = max(len(ws), len(back))
-            for a, b in zip(ws + [None] * (n - len(ws)), back + [None] * (n - len(back))):
+            # a pair of particles can share several facets (different images); align the two directions facet by facet
+            for a, b in _align(ws, back, lambda x, y: abs(x - y) <= 2.1e-6 or max(x, y) < wtol):
                 if a is None or b is None:
                     # a facet seen from one side only is tolerated only when it is near-degenerate
                     w1 = a if b is None else b
                     if d == 3 and w1 >= wtol and not H.STRICT:
                         continue  # known finding freud-drops-facet: decided below against the reference tessellation
                     require(w1 < wtol, f"frame {k}: bond {i + 1}->{j + 1} (weight {w1!r}) has no reverse entry "
-                                       f"(near-degenerate threshold {wtol:.2e})")
+                                       f"(near-degenerate threshold {wtol:.2e}); facets {ws} vs {back}")
                     ambiguous += 1
-                else:
-                    require(abs(a - b) <= 2.1e-6 or max(a, b) < wtol,
-                            f"frame {k}: bond {i + 1}<->{j + 1} weights differ by direction: {ws} vs {back}")
         vols = np.array([v for _, v in ov[k]])
         require(np.all(vols > 0), f"frame {k}: non-positive cell volume")
         require(abs(vols.sum() - V) <= N * 5.1e-7 + 2e-6 * V,
@@ -320,13 +317,18 @@ def check_files(case):
             for j, w in zip(ids[i], wt[k][i]):
                 got.setdefault(j - 1, []).append(w)
             for j in set(rtab[i]) | set(got):
-                r = list(rtab[i].get(j, []))
+                r = sorted(rtab[i].get(j, []), reverse=True)
                 g = sorted(got.get(j, []), reverse=True)
-                n = max(len(r), len(g))
-                r += [0.0] * (n - len(r))
-                g += [0.0] * (n - len(g))
                 s_ij = sw[i].get(j, 0.0)
-                for a, b in zip(g, r):
+
+                def _tol(b):
+                    t = 5.1e-7 + 8 * s_ij + 16 * eps * (1.0 + b) ** ((d - 2) / max(d - 1, 1)) + 1e-9 * b
+                    return t + wtol if j in unstable[i] else t
+
+                # several facets between the same two particles (images): align file and reference facet by facet
+                for a, b in _align(g, r, lambda x, y: abs(x - y) <= _tol(y)):
+                    a = 0.0 if a is None else a
+                    b = 0.0 if b is None else b
                     if a == 0.0 or b == 0.0:
                         # facet present in only one tessellation (or printed as 0.000000): must be near-degenerate
                         if d == 3 and a == 0.0 and b >= wtol + 8 * s_ij and j not in unstable[i] and not H.STRICT:
@@ -337,14 +339,8 @@ def check_files(case):
                             continue
                         require(max(a, b) < wtol + 8 * s_ij or j in unstable[i],
                                 f"frame {k}: bond {i + 1}->{j + 1}: weight {a!r} in file, {b!r} in the reference "
-                                f"tessellation (tolerance {wtol + 8 * s_ij:.2e})")
+                                f"tessellation (tolerance {wtol + 8 * s_ij:.2e}); facets {g} vs {r}")
                         ambiguous += 1
-                    else:
-                        tol = 5.1e-7 + 8 * s_ij + 16 * eps * (1.0 + b) ** ((d - 2) / max(d - 1, 1)) + 1e-9 * b
-                        if j in unstable[i]:
-                            tol += wtol
-                        require(abs(a - b) <= tol, f"frame {k}: bond {i + 1}->{j + 1} weight {a!r} != reference {b!r} "
-                                                   f"(tolerance {tol:.2e})")
         require(dropped <= 4, f"frame {k}: {dropped} regular facets of the reference tessellation are missing from the "
                               f"neighbour file (more than the isolated omissions of the known finding freud-drops-facet)")
         known_dropped += dropped
@@ -477,6 +473,22 @@ def check_volmat(case):
             "saved" if case["save"] else "unsaved", "outside" if case["outside"] else "inside", "box-" + case["shape"],
             "box-varies" if case["varybox"] else "box-constant", "self-image-contact" if self_touch else "no-self-contact"]
     return {"nontrivial": bool(distinct_frames or case["cell"]["origin"] != "zero"), "tags": tags}
+
+
+def _align(xs, ys, same):
+    """Two descending lists of facet weights -> list of (x|None, y|None): a two-pointer merge that pairs entries
+    accepted by `same` and leaves the others unpaired (the larger one first).  A facet missing on one side thus shows
+    up as one unpaired entry instead of shifting every later pair."""
+    out, i, j = [], 0, 0
+    while i < len(xs) and j < len(ys):
+        if same(xs[i], ys[j]):
+            out.append((xs[i], ys[j])); i += 1; j += 1
+        elif xs[i] > ys[j]:
+            out.append((xs[i], None)); i += 1
+        else:
+            out.append((None, ys[j])); j += 1
+    out += [(x, None) for x in xs[i:]] + [(None, y) for y in ys[j:]]
+    return out
 
 
 def describe(case):
